@@ -349,7 +349,7 @@ func init() {
 		Level: "exploration",
 		Rule: "disk.CreateFilesystem(T, label) for T in {fat12, fat16, fat32, ext4, iso9660, squashfs} on the whole disk, in a GPT partition and in an MBR partition of a store-backed disk (512-byte sectors; 4096 for iso9660/squashfs), sizes bracketing each type's limits and (thorough) stepping across the FAT cluster-count thresholds, labels {empty, upper, 11 chars, lower case, with space}; one file is written (and the image finalized where needed); a freshly opened disk on the same bytes must report the table type, GetFilesystem(n).Type()==T, the label and the file's content; every ordered pair (previous type -> new type) is created in the same range without wiping; blank ranges must give the unknown-filesystem error. Non-trivial = filesystem accepted by CreateFilesystem and re-opened; distinct = distinct configuration",
 		Assumptions: []string{"fat12/fat16/ext4 accept only 512-byte sectors and iso9660/squashfs need 2048+/4096: stale-bytes pairs that cannot share a disk are not driven", "a refusal by CreateFilesystem is an observation"},
-		MinSigs:   map[string]int{"quick": 90, "thorough": 300},
+		MinSigs:   map[string]int{"quick": 70, "thorough": 250},
 		NeedMarks: []string{"fat12 on whole", "fat16 on gpt", "fat32 on mbr", "ext4 on gpt", "iso9660 on whole", "squashfs on whole", "blank range"},
 		CPUSec:    600,
 		Cases:     c12Cases,
